@@ -167,6 +167,8 @@ type caseDesc struct {
 	Detail   string          `json:"detail,omitempty"`
 	Err      string          `json:"err,omitempty"`
 	// a step of a sequence on ONE caching client: the whole sequence (to re-run it) and the position of this step
+	// table columns the user declared up front for required bookkeeping fields (with no entry under `block`)
+	Pre  []string  `json:"predeclared,omitempty"`
 	Seq  []seqStep `json:"seq,omitempty"`
 	Step int       `json:"step,omitempty"`
 }
@@ -247,9 +249,25 @@ func runCase(e *env, sel []string, withEvent bool, ss *session) (caseDesc, strin
 		ig.Event = e.event
 		ig.Table.Columns = append(ig.Table.Columns, wpg.Column{Name: "a", Type: "bytea"})
 	}
+	d.Pre = predeclare
+	hasCol := func(n string) bool {
+		for _, c := range ig.Table.Columns {
+			if c.Name == n {
+				return true
+			}
+		}
+		return false
+	}
+	for _, n := range predeclare { // a schema written out in full: the column exists, `block` does not list the field
+		if !hasCol(n) {
+			ig.Table.Columns = append(ig.Table.Columns, wpg.Column{Name: n, Type: preType[n]})
+		}
+	}
 	for _, s := range sel {
 		ig.Block = append(ig.Block, dig.BlockData{Name: s, Column: s})
-		ig.Table.Columns = append(ig.Table.Columns, wpg.Column{Name: s, Type: fieldByName(s).typ})
+		if !hasCol(s) {
+			ig.Table.Columns = append(ig.Table.Columns, wpg.Column{Name: s, Type: fieldByName(s).typ})
+		}
 	}
 	ig.AddRequiredFields()
 	for _, bd := range ig.Block {
@@ -420,6 +438,35 @@ func runCase(e *env, sel []string, withEvent bool, ss *session) (caseDesc, strin
 			d.Bad = s
 		}
 	}
+	// the required bookkeeping columns are stored too, with the node's indices (never NULL / a zero default)
+	reqCols := []string{"ig_name", "src_name", "block_num", "tx_idx"}
+	switch mode {
+	case "log":
+		reqCols = append(reqCols, "log_idx")
+	case "trace":
+		reqCols = append(reqCols, "trace_action_idx")
+	}
+	if d.Err == "" && d.Bad == "" && len(conn.rows) == len(items) {
+		for _, rc := range reqCols {
+			k := col(rc)
+			bad := k < 0
+			if !bad {
+				f := fieldByName(rc)
+				for _, row := range conn.rows {
+					it := find(row)
+					if it == nil || row[k] != f.want(*it) {
+						bad = true
+						break
+					}
+				}
+			}
+			if bad {
+				d.Bad = rc
+				d.Detail = fmt.Sprintf("required column %s is not stored with the node's value (columns copied: %v)", rc, conn.cols)
+				break
+			}
+		}
+	}
 	// Coq term
 	m := map[string]string{"tx": "MTx", "log": "MLog", "trace": "MTrace"}[mode]
 	q := func(xs []string) string {
@@ -439,6 +486,19 @@ func runCase(e *env, sel []string, withEvent bool, ss *session) (caseDesc, strin
 
 func add(out *lib.Out, e *env, sel []string, withEvent bool, kind string) {
 	addStep(out, e, sel, withEvent, kind, nil, nil, 0)
+}
+
+// the required bookkeeping columns a user may have declared in table.columns without listing them under `block`
+var preType = map[string]string{"ig_name": "text", "src_name": "text", "block_num": "numeric", "tx_idx": "int", "log_idx": "int",
+	"abi_idx": "int2", "trace_action_idx": "int2"}
+var preNames = []string{"ig_name", "src_name", "block_num", "tx_idx", "log_idx", "abi_idx", "trace_action_idx"}
+var predeclare []string
+
+// addPre: one case with table columns pre-declared
+func addPre(out *lib.Out, e *env, sel []string, withEvent bool, kind string, pre []string) {
+	predeclare = pre
+	defer func() { predeclare = nil }()
+	add(out, e, sel, withEvent, kind)
 }
 
 // addSeq runs a sequence of integrations over the same range on ONE caching client
@@ -502,6 +562,9 @@ func addStep(out *lib.Out, e *env, sel []string, withEvent bool, kind string, ss
 	msg := ""
 	if !ok {
 		msg = fmt.Sprintf("selected field %s is not stored with the node's value (%s) plan=%s requests=%v", d.Bad, d.Detail, d.Plan, d.Fetches)
+		if len(d.Pre) > 0 {
+			msg += fmt.Sprintf(" -- table.columns pre-declares %v, block lists only %v", d.Pre, sel)
+		}
 		if len(seq) > 0 {
 			var plans []string
 			for _, st := range seq[:step+1] {
@@ -548,7 +611,7 @@ func runC14(cfg Cfg) error {
 	e := newEnv()
 	defer e.node.Close()
 	out := lib.NewOut("C14", cfg.Out, c14Header, "run", 100)
-	out.Rule = "dig.New(config.AddRequiredFields(sel)).Filter() -> jrpc2.Client.Get against the scripted node (every field of every item distinct and non-zero) -> Integration.Insert into a Go-level wpg.Conn capturing CopyFrom: every selectable field alone, ALL unordered pairs exhaustively, one representative set per subset of membership classes, random larger sets; without an event (transaction / trace rows) and with an event (log rows); 52 sequences of 2-3 integrations with different plans over the same range on ONE caching client (every ordered pair within the plans sharing the header cache and within those sharing the block cache, mixed triples), and sequences [X with one of its requests failing once; another plan Y; retry of X] for every plan X, every request kind of X, three Y; and [X with a soft fault in one reply (result null, error member; empty list for traces) ; retry of X]. Oracle: every stored column of every row equals the node's value for that item and the number of rows equals the number of items. Model-diff: required fields, requests seen by the node = dispatch(glf.New), observed supplied-matrix = Provides. non-trivial = at least one non-context field selected"
+	out.Rule = "dig.New(config.AddRequiredFields(sel)).Filter() -> jrpc2.Client.Get against the scripted node (every field of every item distinct and non-zero) -> Integration.Insert into a Go-level wpg.Conn capturing CopyFrom: every selectable field alone, ALL unordered pairs exhaustively, one representative set per subset of membership classes, random larger sets; the same with table.columns pre-declaring the required bookkeeping columns (ig_name src_name block_num tx_idx log_idx abi_idx trace_action_idx: each singly and all together for every single field, all together for a sample of pairs and class representatives) while `block` does not list them; without an event (transaction / trace rows) and with an event (log rows); 52 sequences of 2-3 integrations with different plans over the same range on ONE caching client (every ordered pair within the plans sharing the header cache and within those sharing the block cache, mixed triples), and sequences [X with one of its requests failing once; another plan Y; retry of X] for every plan X, every request kind of X, three Y; and [X with a soft fault in one reply (result null, error member; empty list for traces) ; retry of X]. Oracle: every stored column of every row equals the node's value for that item and the number of rows equals the number of items. Model-diff: required fields, requests seen by the node = dispatch(glf.New), observed supplied-matrix = Provides. non-trivial = at least one non-context field selected"
 	if cfg.Replay != "" {
 		raw, err := os.ReadFile(cfg.Replay)
 		if err != nil {
@@ -569,7 +632,7 @@ func runC14(cfg Cfg) error {
 		if len(d.Seq) > 0 {
 			addSeq(out, e, d.Seq, "replay-sequence")
 		} else {
-			add(out, e, d.Sel, d.Mode == "log", "replay")
+			addPre(out, e, d.Sel, d.Mode == "log", "replay", d.Pre)
 		}
 		return out.Flush()
 	}
@@ -695,11 +758,32 @@ func runC14(cfg Cfg) error {
 	for _, f := range names {
 		both([]*fieldDef{f}, "single")
 	}
+	// table.columns pre-declaring required bookkeeping columns that `block` does not list: each singly and all
+	// together, for every single field; all together for a sample of the pairs and of the class representatives
+	pres := [][]string{preNames}
+	for _, n := range preNames {
+		pres = append(pres, []string{n})
+	}
+	bothPre := func(sel []*fieldDef, kind string, pre []string) {
+		for _, ev := range []bool{false, true} {
+			if s, ok := valid(sel, ev); ok {
+				addPre(out, e, s, ev, kind, pre)
+			}
+		}
+	}
+	for _, f := range names {
+		for _, pre := range pres {
+			bothPre([]*fieldDef{f}, "single-predeclared", pre)
+		}
+	}
 	// all pairs, exhaustively
 	npairs := 0
 	for i := range names {
 		for j := i + 1; j < len(names); j++ {
 			both([]*fieldDef{names[i], names[j]}, "pair")
+			if npairs%7 == int(cfg.Seed)%7 {
+				bothPre([]*fieldDef{names[i], names[j]}, "pair-predeclared", preNames)
+			}
 			npairs++
 		}
 	}
@@ -725,6 +809,9 @@ func runC14(cfg Cfg) error {
 			}
 		}
 		both(sel, "class-subset")
+		if mask%8 == int(cfg.Seed)%8 {
+			bothPre(sel, "class-subset-predeclared", preNames)
+		}
 		nsub++
 	}
 	// random larger sets
